@@ -388,6 +388,17 @@ func main() {
 			cfgs[fmt.Sprintf("%s|%d%d%d|%d|%d", jobs[i].Kind, jobs[i].LC, jobs[i].LP, jobs[i].PB, jobs[i].Dict, jobs[i].Matcher)] = true
 		}
 		// disturbers: instances with failing sinks / sources, retried and abandoned calls
+		// in the rounds whose writers are created beforehand from one retuned Properties variable:
+		// two more writers with compressible data (the output of noise does not depend on the
+		// properties), drawn from a generator of their own
+		if round%2 == 1 {
+			xr := prng.New(*seed, 142, uint64(round))
+			for k := 0; k < 2; k++ {
+				pp := lclp[xr.Intn(len(lclp))]
+				jobs = append(jobs, job{Kind: []string{"lzma2W", "lzmaW"}[k], LC: pp[0], LP: pp[1], PB: xr.Intn(5), Dict: roundDict, Matcher: k, Check: 4,
+					Family: []string{"text", "lowent"}[k], N: 5000 + 1000*k, Seed: xr.U64()})
+			}
+		}
 		// readers of foreign streams: chunk kinds this library's writer never emits (state resets
 		// without new properties after uncompressed chunks, property changes in the middle), from
 		// the specification-driven generator, several instances with the same properties at once
@@ -478,7 +489,12 @@ func main() {
 				if w, err := newWriter(j, pp, sk); err == nil {
 					pre = &prebuilt{w, sk}
 					res.Kinds["writers_created_before_the_round"]++
+					res.Kinds["created_before_the_round:"+j.Kind]++
 				}
+			}
+			if i == len(jobs)-1 && round%2 == 1 {
+				// the variable is retuned once more after the last writer was created
+				reuseProps = lzma.Properties{LC: 1, LP: 1, PB: 1}
 			}
 			go func(i int) {
 				defer wg.Done()
